@@ -81,7 +81,7 @@ def gen_cases(rng, n):
 
 def run(ctx):
     rng = random.Random(ctx["seed"])
-    n = 20000 if ctx["tier"] == "thorough" else 400
+    n = 20000 if ctx["tier"] == "thorough" else 1200
     cases = simcheck.load_corpus("C10") + gen_cases(rng, n)
     results = simcheck.run_cases(ctx, "harness.props.c10", cases)
     return simcheck.summarise(ctx, cases, results,
